@@ -7,6 +7,7 @@
 #undef protected
 #include "synth.hpp"
 #include <unordered_set>
+#include <sstream>
 #include <set>
 
 using namespace nifly;
@@ -25,6 +26,7 @@ struct Gen : std::streambuf, verif::Observer {
 	long long boostVal = -1;
 	std::vector<std::pair<int, long long>> overrides;
 	int scalarOrd = 0;
+	std::string servedBytes;
 	std::vector<uint32_t> codes; // (kind, size, is-reference, is-string) of every transfer the reader asked for
 	std::vector<int> scalarKinds;
 	// layout signature: the set of adjacent pairs of transfers (a longer array repeats pairs, a new section adds some)
@@ -114,6 +116,7 @@ struct Gen : std::streambuf, verif::Observer {
 			memset(s, 0, size_t(n));
 			memcpy(s, &v, size_t(std::min<std::streamsize>(n, 8)));
 		}
+		servedBytes.append(s, size_t(n));
 		return n;
 	}
 	int underflow() override { return traits_type::eof(); }
@@ -203,9 +206,34 @@ static bool synthCore(NifFile& nif, const std::string& type, const std::string& 
 		info->readRefs = gen.readRefs;
 		info->readStrs = gen.readStrs;
 		info->tape = gen.signature();
+		info->served = gen.servedBytes;
 		info->scalarKinds = gen.scalarKinds;
 	}
 	if (gen.exhausted || !obj) return false;
+	if (info && info->wantRoundTrip) {
+		auto put = [&](NiObject* o) {
+			std::ostringstream os(std::ios::binary);
+			NiOStream s(&os, &hdr);
+			o->Put(s);
+			return os.str();
+		};
+		auto load = [&](const std::string& b) {
+			std::istringstream bs(b, std::ios::binary);
+			NiIStream s(&bs, &hdr);
+			return fac->Load(s);
+		};
+		try {
+			std::string w1 = put(obj.get());
+			auto o2 = load(w1);
+			std::string w2 = o2 ? put(o2.get()) : std::string();
+			auto o3 = o2 ? load(w2) : nullptr;
+			std::string w3 = o3 ? put(o3.get()) : std::string();
+			info->roundTrip = (o2 && o3) ? (w3 == w2 ? 0 : 1) : -1;
+		}
+		catch (...) {
+			info->roundTrip = -1;
+		}
+	}
 	uint32_t id = hdr.AddBlock(std::move(obj));
 	if (info) info->blockId = id;
 	// make the block reachable so that default saves keep it: hang it below the root when it is an AV object, else
